@@ -60,7 +60,32 @@ func (tw *tokenWorld) viol(prop, rule, site, format string, a ...any) {
 	tw.o.Violate(prop, rule, tw.site(site), tw.step, format, a...)
 }
 
-var honestClients = []string{"web", "post", "pub", "native", "jwt", "hyb"}
+var honestClients = []string{"web", "post", "pub", "native", "jwt", "hyb", "odd"}
+
+// foreignHere: the token string is a JWT that names another issuer than the tenant the next request goes to. Such a
+// token is not a live token of this provider-tenant, whatever the shared storage says about its id. (Opaque tokens
+// name no issuer; whether a storage shared by several tenants honours them everywhere is the storage's business.)
+func (tw *tokenWorld) foreignHere(tok string) bool {
+	if len(tw.w.Issuers) < 2 || strings.Count(tok, ".") != 2 {
+		return false
+	}
+	pl := world.JWTPayload(tok)
+	iss, _ := pl["iss"].(string)
+	return iss != "" && iss != tw.w.Issuer
+}
+
+// goHome directs the following requests to the tenant the tokens were obtained from (multi-tenant worlds): what the
+// statements promise about a token's own client, revocation and refresh is promised at the token's own issuer.
+func (tw *tokenWorld) goHome(g *grantedToken) {
+	if g == nil || len(tw.w.Issuers) < 2 {
+		return
+	}
+	for i, iss := range tw.w.Issuers {
+		if iss == g.issuer {
+			tw.w.UseIssuer(i)
+		}
+	}
+}
 
 // obtain runs an honest code flow for a random usable client.
 func (tw *tokenWorld) obtain(ch *kernel.Chooser) string {
@@ -72,6 +97,11 @@ func (tw *tokenWorld) obtain(ch *kernel.Chooser) string {
 	scopes := append([]string{oidc.ScopeOpenID}, ch.Subset([]string{oidc.ScopeProfile, oidc.ScopeEmail, oidc.ScopePhone})...)
 	if ch.Bool(3, 4) {
 		scopes = append(scopes, oidc.ScopeOfflineAccess)
+	}
+	if ch.Bool(1, 6) {
+		// a client that names a scope twice (legal: the scope parameter is a list, nothing forbids a repeated entry)
+		scopes = append(scopes, scopes[ch.Int(len(scopes))])
+		tw.o.Probe("authorization-names-a-scope-twice")
 	}
 	user := ch.Pick("alice", "bob")
 	if tw.prop == "C08" && ch.Bool(1, 8) {
@@ -239,6 +269,7 @@ func (tw *tokenWorld) refresh(ch *kernel.Chooser) string {
 	if g == nil {
 		return "refresh: no refresh token"
 	}
+	tw.goHome(g)
 	caller := g.client
 	if ch.Bool(1, 4) {
 		caller = honestClients[ch.Int(len(honestClients))]
@@ -250,7 +281,15 @@ func (tw *tokenWorld) refresh(ch *kernel.Chooser) string {
 	form := url.Values{"grant_type": {"refresh_token"}, "refresh_token": {g.refresh}}
 	var req []string
 	scopeKind := "same"
-	switch ch.Int(8) {
+	switch ch.Int(9) {
+	case 8:
+		// as many entries as were granted, one of them exchanged for a scope that never was
+		scopeKind = "superset"
+		req = append([]string(nil), g.original...)
+		req[ch.Int(len(req))] = ch.Pick("api", oidc.ScopeAddress, "custom:x")
+		if subset(req, g.original) {
+			scopeKind = "subset"
+		}
 	case 0:
 		scopeKind = "subset"
 		for _, s := range g.original {
@@ -416,7 +455,7 @@ func (tw *tokenWorld) refresh(ch *kernel.Chooser) string {
 	}
 	// the old pair is dead now, the new one joins the pool
 	ng := &grantedToken{access: tr.AccessToken, refresh: tr.RefreshToken, idToken: tr.IDToken, client: snap.Client, subject: snap.Subject,
-		scopes: tr.ScopeList(), original: g.original, authTime: g.authTime, chain: g.chain + 1, flow: "refresh"}
+		scopes: tr.ScopeList(), original: g.original, authTime: g.authTime, chain: g.chain + 1, flow: "refresh", issuer: g.issuer}
 	tw.retire(g)
 	tw.pool = append(tw.pool, ng)
 	if ng.chain >= 2 {
@@ -531,8 +570,14 @@ func (tw *tokenWorld) userinfo(ch *kernel.Chooser) string {
 	if ch.Bool(1, 4) {
 		tok, kind = tw.mangle(ch, g.access)
 	}
+	if ch.Bool(1, 2) {
+		tw.goHome(g)
+	}
 	id, sub, _, decodes := w.DecodeAccess(tok)
-	live := decodes && w.Store.TokenLive(id)
+	live := decodes && w.Store.TokenLive(id) && !tw.foreignHere(tok)
+	if decodes && tw.foreignHere(tok) {
+		tw.o.Probe("jwt-access-token-presented-at-another-tenant")
+	}
 	torn := tw.prop == "C08" && ch.Bool(1, 8)
 	if torn {
 		fired := false
@@ -598,8 +643,14 @@ func (tw *tokenWorld) introspect(ch *kernel.Chooser) string {
 	if ch.Bool(1, 5) {
 		tok, kind = tw.mangle(ch, g.access)
 	}
+	if ch.Bool(1, 2) {
+		tw.goHome(g)
+	}
 	id, _, _, decodes := w.DecodeAccess(tok)
-	live := decodes && w.Store.TokenLive(id)
+	live := decodes && w.Store.TokenLive(id) && !tw.foreignHere(tok)
+	if decodes && tw.foreignHere(tok) {
+		tw.o.Probe("jwt-access-token-presented-at-another-tenant")
+	}
 	torn := tw.prop == "C08" && ch.Bool(1, 6)
 	if torn { // the storage fills the response partially and then fails
 		fired := false
@@ -662,6 +713,7 @@ func (tw *tokenWorld) revoke(ch *kernel.Chooser) string {
 	if g == nil {
 		return "revoke: no token"
 	}
+	tw.goHome(g)
 	caller := g.client
 	if ch.Bool(1, 3) {
 		caller = honestClients[ch.Int(len(honestClients))]
@@ -802,6 +854,7 @@ func (tw *tokenWorld) endSession(ch *kernel.Chooser) string {
 	if g == nil || g.idToken == "" {
 		return "end_session: no id token"
 	}
+	tw.goHome(g)
 	q := url.Values{"id_token_hint": {g.idToken}}
 	r := rawGet(w, "/end_session?"+q.Encode())
 	desc := fmt.Sprintf("end_session for %s/%s -> %d", g.client, g.subject, statusOf(r))
@@ -847,7 +900,13 @@ func (tw *tokenWorld) exchangeUse(ch *kernel.Chooser) string {
 	}
 	form := url.Values{"grant_type": {string(oidc.GrantTypeTokenExchange)}, "subject_token": {stok}, "subject_token_type": {string(oidc.AccessTokenType)}, "requested_token_type": {string(oidc.AccessTokenType)}}
 	sid, _, _, sdec := w.DecodeAccess(stok)
-	slive := sdec && w.Store.TokenLive(sid) && (skind == "genuine" || stok == subj.access || strings.Count(subj.access, ".") != 2 || sameJWT(stok, subj.access))
+	if ch.Bool(1, 2) {
+		tw.goHome(subj)
+	}
+	if sdec && tw.foreignHere(stok) {
+		tw.o.Probe("jwt-access-token-presented-at-another-tenant")
+	}
+	slive := sdec && w.Store.TokenLive(sid) && !tw.foreignHere(stok) && (skind == "genuine" || stok == subj.access || strings.Count(subj.access, ".") != 2 || sameJWT(stok, subj.access))
 	// an ID token of the provider may serve as subject or actor too: it is live as long as it has not expired (the
 	// provider keeps no record of ID tokens; its own expiry check is all there is)
 	// exact: an ID token is dead from the instant exp names; a request that began before that instant and ended after
@@ -885,11 +944,14 @@ func (tw *tokenWorld) exchangeUse(ch *kernel.Chooser) string {
 			form.Set("actor_token", actor.idToken)
 			form.Set("actor_token_type", string(oidc.IDTokenType))
 			alive, aUndecided = idLive(actor)
+			if actor.issuer != "" && actor.issuer != w.Issuer {
+				alive = false
+			}
 		} else {
 			form.Set("actor_token", actor.access)
 			form.Set("actor_token_type", string(oidc.AccessTokenType))
 			aid, _, _, adec := w.DecodeAccess(actor.access)
-			alive = adec && w.Store.TokenLive(aid)
+			alive = adec && w.Store.TokenLive(aid) && !tw.foreignHere(actor.access)
 		}
 	}
 	r := w.PostForm("/oauth/token", form, rightPresentation(w, caller).creds)
@@ -985,6 +1047,7 @@ func (tw *tokenWorld) otherGrant(ch *kernel.Chooser) string {
 		if g == nil {
 			return "token-exchange: no subject token"
 		}
+		tw.goHome(g)
 		form = url.Values{"grant_type": {string(grant)}, "subject_token": {g.refresh}, "subject_token_type": {string(oidc.RefreshTokenType)}, "requested_token_type": {string(oidc.AccessTokenType)}}
 	case 2:
 		grant = oidc.GrantTypeDeviceCode
@@ -1095,7 +1158,7 @@ func (tw *tokenWorld) codeGrant(ch *kernel.Chooser) string {
 	if p.claimedClient() != client {
 		tw.viol("C05", "unauthenticated-success", "token/authorization_code/other-client", "%s: tokens issued to a caller that presented itself as %q", desc, p.claimedClient())
 	}
-	tw.pool = append(tw.pool, &grantedToken{access: tr.AccessToken, refresh: tr.RefreshToken, idToken: tr.IDToken, client: client, subject: "u1", scopes: []string{oidc.ScopeOpenID}, original: []string{oidc.ScopeOpenID}, flow: "code"})
+	tw.pool = append(tw.pool, &grantedToken{access: tr.AccessToken, refresh: tr.RefreshToken, idToken: tr.IDToken, client: client, subject: "u1", scopes: []string{oidc.ScopeOpenID}, original: []string{oidc.ScopeOpenID}, flow: "code", issuer: w.Issuer})
 	return desc + " TOKENS"
 }
 
@@ -1109,7 +1172,13 @@ func grantName(g oidc.GrantType) string {
 
 func runTokenWorld(t *testing.T, spec kernel.Spec, prop string, weights map[string]int) *kernel.Outcome {
 	return inBubble(t, spec, func(o *kernel.Outcome, tape *kernel.Tape) {
-		w, err := world.NewStd(o, tape, world.StdOptions{Router: spec.Params["router"]})
+		tenants := 0
+		if tc := tape.Sub("cfg-tenants"); prop == "C08" && tc.Bool(1, 3) {
+			// one provider, several issuers (from the Host or Forwarded header), one storage: a JWT access token is a
+			// token of the tenant that issued it and of no other
+			tenants = 2 + tc.Int(2)
+		}
+		w, err := world.NewStd(o, tape, world.StdOptions{Router: spec.Params["router"], Tenants: tenants})
 		if err != nil {
 			o.Infra = "world: " + err.Error()
 			return
@@ -1133,6 +1202,10 @@ func runTokenWorld(t *testing.T, spec kernel.Spec, prop string, weights map[stri
 		n := 40 + tape.Sub("cfg").Int(40)
 		steps(o, tape, n, func(i int, ch *kernel.Chooser) string {
 			tw.step = i
+			if len(w.Issuers) > 1 {
+				w.UseIssuer(ch.Int(len(w.Issuers)))
+				o.Probe("multi-tenant-steps")
+			}
 			if i < 2 {
 				return tw.obtain(ch)
 			}
